@@ -1,43 +1,50 @@
 """Reviewed tables for the Input implementations (rules SPAN-PROV, STREAM)."""
 
-SPAN_PROV = {
-    '&[T; N]::slice': ['index(arg1, Range{start: arg2.start, end: arg2.end})'],
-    '&[T; N]::slice_from': ['index(arg1, RangeFrom{start: arg2.start})'],
-    '&[T; N]::span': ['Range{start: arg2.start, end: arg2.end}'],
-    '&[T; N]::span_from': ['Range{start: arg2.start, end: len(arg1)}'],
-    '&[T]::slice': ['index(arg1, Range{start: arg2.start, end: arg2.end})'],
-    '&[T]::slice_from': ['index(arg1, RangeFrom{start: arg2.start})'],
-    '&[T]::span': ['Range{start: arg2.start, end: arg2.end}'],
-    '&[T]::span_from': ['Range{start: arg2.start, end: len(arg1)}'],
-    '&str::slice': ['index(arg1, Range{start: arg2.start, end: arg2.end})'],
-    '&str::slice_from': ['index(arg1, RangeFrom{start: arg2.start})'],
-    '&str::span': ['Range{start: arg2.start, end: arg2.end}'],
-    '&str::span_from': ['Range{start: arg2.start, end: len(arg1)}'],
-    '&text::unicode::Graphemes::slice': ['new(index(as_str(arg1), Range{start: arg2.start, end: arg2.end}))'],
-    '&text::unicode::Graphemes::slice_from': ['new(index(as_str(arg1), RangeFrom{start: arg2.start}))'],
-    '&text::unicode::Graphemes::span': ['Range{start: arg2.start, end: arg2.end}'],
-    '&text::unicode::Graphemes::span_from': ['Range{start: arg2.start, end: len(as_str(arg1))}'],
-    'bytes::Bytes::slice': ['slice(arg1, Range{start: arg2.start, end: arg2.end})'],
-    'bytes::Bytes::slice_from': ['slice(arg1, RangeFrom{start: arg2.start})'],
-    'bytes::Bytes::span': ['Range{start: arg2.start, end: arg2.end}'],
-    'bytes::Bytes::span_from': ['Range{start: arg2.start, end: len(arg1)}'],
-    'input::IoInput::span': ['Range{start: arg2.start, end: arg2.end}'],
-    'input::MappedInput::slice': ['slice(arg1.0, Range{start: arg2.start.0, end: arg2.end.0})'],
-    'input::MappedInput::slice_from': ['slice_from(arg1.0, RangeFrom{start: arg2.start.0})'],
-    'input::MappedInput::span': ['new(context(arg1.2), Range{start: end(arg1.2), end: end(arg1.2)})', 'new(context(arg1.2), Range{start: start(call(arg1.1, tuple{0: next_maybe(arg1.0, arg2.start.0).0}).1), end: start(call(arg1.1, tuple{0: next_maybe(arg1.0, arg2.start.0).0}).1)})', 'new(context(arg1.2), Range{start: start(call(arg1.1, tuple{0: next_maybe(arg1.0, arg2.start.0).0}).1), end: unwrap_or_else(arg2.end.1, closure)})'],
-    'input::MappedInput::span_from': ['new(context(arg1.2), Range{start: unwrap_or_else(map(next_maybe(arg1.0, arg2.start.0), closure), closure), end: end(arg1.2)})'],
-    'input::MappedSpan::slice': ['slice(arg1.0, arg2)'],
-    'input::MappedSpan::slice_from': ['slice_from(arg1.0, arg2)'],
-    'input::MappedSpan::span': ['call(arg1.1, tuple{0: span(arg1.0, arg2)})'],
-    'input::MappedSpan::span_from': ['call(arg1.1, tuple{0: span_from(arg1.0, arg2)})'],
-    'input::WithContext::slice': ['slice(arg1.0, arg2)'],
-    'input::WithContext::slice_from': ['slice_from(arg1.0, arg2)'],
-    'input::WithContext::span': ['new(arg1.1, Range{start: start(span(arg1.0, arg2)), end: end(span(arg1.0, arg2))})'],
-    'input::WithContext::span_from': ['new(arg1.1, Range{start: start(span_from(arg1.0, arg2)), end: end(span_from(arg1.0, arg2))})'],
-    'stream::IterInput::span': ['new(context(arg1), Range{start: end(arg1), end: end(arg1)})', 'new(context(arg1), Range{start: start(next(arg2.start.0).0.1), end: start(next(arg2.start.0).0.1)})', 'new(context(arg1), Range{start: start(next(arg2.start.0).0.1), end: unwrap_or_else(arg2.end.2, closure)})'],
-    'stream::Stream::span': ['Range{start: arg2.start, end: arg2.end}'],
-    'stream::Stream::span_from': ['Range{start: arg2.start, end: AddWithOverflow(len(arg1.tokens), len(arg1.iter)).0}'],
-}
+# normal form (engine/nf.py): one alternative-free term per value the body can return; Option plumbing, closures, delegation erased
+SPAN_PROV = {'&[T; N]::slice': ['index(arg1, Range{start: arg2.start, end: arg2.end})'],
+ '&[T; N]::slice_from': ['index(arg1, RangeFrom{start: arg2.start})'],
+ '&[T; N]::span': ['Range{start: arg2.start, end: arg2.end}'],
+ '&[T; N]::span_from': ['Range{start: arg2.start, end: len(arg1)}'],
+ '&[T]::slice': ['index(arg1, Range{start: arg2.start, end: arg2.end})'],
+ '&[T]::slice_from': ['index(arg1, RangeFrom{start: arg2.start})'],
+ '&[T]::span': ['Range{start: arg2.start, end: arg2.end}'],
+ '&[T]::span_from': ['Range{start: arg2.start, end: len(arg1)}'],
+ '&str::slice': ['index(arg1, Range{start: arg2.start, end: arg2.end})'],
+ '&str::slice_from': ['index(arg1, RangeFrom{start: arg2.start})'],
+ '&str::span': ['Range{start: arg2.start, end: arg2.end}'],
+ '&str::span_from': ['Range{start: arg2.start, end: len(arg1)}'],
+ '&text::unicode::Graphemes::slice': ['index(arg1.inner, Range{start: arg2.start, end: arg2.end})'],
+ '&text::unicode::Graphemes::slice_from': ['index(arg1.inner, RangeFrom{start: arg2.start})'],
+ '&text::unicode::Graphemes::span': ['Range{start: arg2.start, end: arg2.end}'],
+ '&text::unicode::Graphemes::span_from': ['Range{start: arg2.start, end: len(arg1.inner)}'],
+ 'bytes::Bytes::slice': ['slice(arg1, Range{start: arg2.start, end: arg2.end})'],
+ 'bytes::Bytes::slice_from': ['slice(arg1, RangeFrom{start: arg2.start})'],
+ 'bytes::Bytes::span': ['Range{start: arg2.start, end: arg2.end}'],
+ 'bytes::Bytes::span_from': ['Range{start: arg2.start, end: len(arg1)}'],
+ 'input::IoInput::span': ['Range{start: arg2.start, end: arg2.end}'],
+ 'input::MappedInput::slice': ['slice(arg1.0, Range{start: arg2.start.0, end: arg2.end.0})'],
+ 'input::MappedInput::slice_from': ['slice_from(arg1.0, RangeFrom{start: arg2.start.0})'],
+ 'input::MappedInput::span': ['new(context(arg1.2), Range{start: end(arg1.2), end: end(arg1.2)})',
+                              'new(context(arg1.2), Range{start: start(call(arg1.1, tuple{0: next_maybe(arg1.0, arg2.start.0)}).1), end: arg2.end.1})',
+                              'new(context(arg1.2), Range{start: start(call(arg1.1, tuple{0: next_maybe(arg1.0, arg2.start.0)}).1), end: end(arg1.2)})',
+                              'new(context(arg1.2), Range{start: start(call(arg1.1, tuple{0: next_maybe(arg1.0, arg2.start.0)}).1), end: start(call(arg1.1, tuple{0: next_maybe(arg1.0, '
+                              'arg2.start.0)}).1)})'],
+ 'input::MappedInput::span_from': ['new(context(arg1.2), Range{start: end(arg1.2), end: end(arg1.2)})',
+                                   'new(context(arg1.2), Range{start: start(call(arg1.1, tuple{0: next_maybe(arg1.0, arg2.start.0)}).1), end: end(arg1.2)})'],
+ 'input::MappedSpan::slice': ['slice(arg1.0, arg2)'],
+ 'input::MappedSpan::slice_from': ['slice_from(arg1.0, arg2)'],
+ 'input::MappedSpan::span': ['call(arg1.1, tuple{0: span(arg1.0, arg2)})'],
+ 'input::MappedSpan::span_from': ['call(arg1.1, tuple{0: span_from(arg1.0, arg2)})'],
+ 'input::WithContext::slice': ['slice(arg1.0, arg2)'],
+ 'input::WithContext::slice_from': ['slice_from(arg1.0, arg2)'],
+ 'input::WithContext::span': ['new(arg1.1, Range{start: start(span(arg1.0, arg2)), end: end(span(arg1.0, arg2))})'],
+ 'input::WithContext::span_from': ['new(arg1.1, Range{start: start(span_from(arg1.0, arg2)), end: end(span_from(arg1.0, arg2))})'],
+ 'stream::IterInput::span': ['new(context(arg1), Range{start: end(arg1), end: end(arg1)})',
+                             'new(context(arg1), Range{start: start(elem(arg2.start.0).1), end: arg2.end.2})',
+                             'new(context(arg1), Range{start: start(elem(arg2.start.0).1), end: end(arg1)})',
+                             'new(context(arg1), Range{start: start(elem(arg2.start.0).1), end: start(elem(arg2.start.0).1)})'],
+ 'stream::Stream::span': ['Range{start: arg2.start, end: arg2.end}'],
+ 'stream::Stream::span_from': ['Range{start: arg2.start, end: AddWithOverflow(len(arg1.tokens), len(arg1.iter)).0}']}
 
 # What the concrete token reader of each input does to its cursor (rule READER-SIB, absolute part).  Reviewed against the source:
 # index cursors advance by one; &str / Graphemes by the byte length of the item decoded AT the cursor; token-span inputs advance the
@@ -58,26 +65,24 @@ READER_EFFECTS = {
 
 # SPAN-IMPL: the Span trait implementations and span conversions (src/span.rs), reviewed: accessors return their own bound,
 # constructors keep (start, end) in order, defaults are built from the accessors of the right bound.
-SPAN_IMPL = {
-    'span::Span::to_end': 'new(context(arg1), Range{start: end(arg1), end: end(arg1)})',
-    'span::Span::union': 'new(context(arg1), Range{start: min(start(arg1), start(arg2)), end: max(end(arg1), end(arg2))})',
-    'span::SimpleSpan::into_range': 'Range{start: arg1.start, end: arg1.end}',
-    'span::SimpleSpan[std::convert::From]::from': 'SimpleSpan{start: arg1.start, end: arg1.end, context: tuple{}}',
-    'std::ops::Range[std::convert::From]::from': 'Range{start: arg1.start, end: arg1.end}',
-    'span::SimpleSpan[std::iter::IntoIterator]::into_iter': 'Range{start: arg1.start, end: arg1.end}',
-    'span::SimpleSpan[span::Span]::context': 'arg1.context',
-    'span::SimpleSpan[span::Span]::end': 'arg1.end',
-    'span::SimpleSpan[span::Span]::new': 'SimpleSpan{start: arg2.start, end: arg2.end, context: arg1}',
-    'span::SimpleSpan[span::Span]::start': 'arg1.start',
-    '(C, S)[span::Span]::context': 'arg1.0',
-    '(C, S)[span::Span]::end': 'end(arg1.1)',
-    '(C, S)[span::Span]::new': 'tuple{0: arg1, 1: new(tuple{}, arg2)}',
-    '(C, S)[span::Span]::start': 'start(arg1.1)',
-    'std::ops::Range[span::Span]::context': 'const ()',
-    'std::ops::Range[span::Span]::end': 'arg1.end',
-    'std::ops::Range[span::Span]::new': 'arg2',
-    'std::ops::Range[span::Span]::start': 'arg1.start',
-}
+SPAN_IMPL = {'(C, S)[span::Span]::context': 'arg1.0',
+ '(C, S)[span::Span]::end': 'end(arg1.1)',
+ '(C, S)[span::Span]::new': 'tuple{0: arg1, 1: new(tuple{}, arg2)}',
+ '(C, S)[span::Span]::start': 'start(arg1.1)',
+ 'span::SimpleSpan::into_range': 'Range{start: arg1.start, end: arg1.end}',
+ 'span::SimpleSpan[span::Span]::context': 'arg1.context',
+ 'span::SimpleSpan[span::Span]::end': 'arg1.end',
+ 'span::SimpleSpan[span::Span]::new': 'SimpleSpan{start: arg2.start, end: arg2.end, context: arg1}',
+ 'span::SimpleSpan[span::Span]::start': 'arg1.start',
+ 'span::SimpleSpan[std::convert::From]::from': 'SimpleSpan{start: arg1.start, end: arg1.end, context: tuple{}}',
+ 'span::SimpleSpan[std::iter::IntoIterator]::into_iter': 'Range{start: arg1.start, end: arg1.end}',
+ 'span::Span::to_end': 'new(context(arg1), Range{start: end(arg1), end: end(arg1)})',
+ 'span::Span::union': 'new(context(arg1), Range{start: min(start(arg1), start(arg2)), end: max(end(arg1), end(arg2))})',
+ 'std::ops::Range[span::Span]::context': 'const ()',
+ 'std::ops::Range[span::Span]::end': 'arg1.end',
+ 'std::ops::Range[span::Span]::new': 'arg2',
+ 'std::ops::Range[span::Span]::start': 'arg1.start',
+ 'std::ops::Range[std::convert::From]::from': 'Range{start: arg1.start, end: arg1.end}'}
 
 STREAM_ITER_USERS = {
     "stream::Stream[input::ValueInput]::next": {"mutborrow"},          # the refill
